@@ -22,6 +22,9 @@ Inductive c03_case :=
 | CClient12 (c : ccfg) (v : sview) (o : obs)
 | CServer12 (s : scfg) (v : cview) (o : obs)
 | CFlight13 (k : cfg13) (v : pview) (o : obs)
+(* a DTLS 1.3 flight that may lack its Finished: fin_msg = the Finished arrived, acked_all = the peer
+   acknowledged every record of our own flight *)
+| CPending13 (fin_msg acked_all : bool) (k : cfg13) (v : pview) (o : obs)
 (* two connections of one client: v1 = the first (full) handshake, v2 = the full handshake the second
    connection falls back to when the session is not there; o = what the server reports for the SECOND *)
 | CSecond12 (s : scfg) (has_store : bool) (v1 v2 : cview) (rfin_arrives rfin_valid : bool) (o : obs).
@@ -31,6 +34,7 @@ Definition c03_ok (c : c03_case) : bool :=
   | CClient12 c v o => verdict_matches (client12 c v) o
   | CServer12 s v o => verdict_matches (server12 s v) o
   | CFlight13 k v o => verdict_matches (flight13 k v) o
+  | CPending13 fin acked k v o => verdict_matches (flight13_pending fin acked k v) o
   | CSecond12 s hs v1 v2 ra rv o => verdict_matches (server12_second s hs v1 v2 ra rv) o
   end.
 
@@ -40,13 +44,14 @@ Definition c03_required (c : c03_case) : bool :=
   | CClient12 c v _ => client_credential c v
   | CServer12 s v _ => server_credential s v
   | CFlight13 k v _ => flight13_credential k v
+  | CPending13 fin _ k v _ => fin && flight13_credential k v
   | CSecond12 s _ v1 v2 _ _ _ => server_credential s v1 || server_credential s v2
   end.
 
 (* monitor inside Coq: established although the requirement is not met *)
 Definition c03_violates (c : c03_case) : bool :=
   match c with
-  | CClient12 _ _ OOk | CServer12 _ _ OOk | CFlight13 _ _ OOk | CSecond12 _ _ _ _ _ _ OOk => negb (c03_required c)
+  | CClient12 _ _ OOk | CServer12 _ _ OOk | CFlight13 _ _ OOk | CPending13 _ _ _ _ OOk | CSecond12 _ _ _ _ _ _ OOk => negb (c03_required c)
   | _ => false
   end.
 
